@@ -120,6 +120,15 @@ CLAIMED = {
              "message template (system=true, data=NULL, flags=0), nobody rewrites the system flag, CTX_STOPPED emitted before the final flush.",
         tech="who-calls with string constants + per-path pairing counts + initialiser dataflow",
         ref="DESIGN.md §4 C19"),
+    "C09": dict(
+        text="Static rules for the per-kind source registries: for each ordered set mod->srcs[T] the static type of every key handed to "
+             "m_bst_insert/remove (followed through one level of parameter passing, all constant TYPEs of all callers) must contain, at offset 0 of "
+             "its record layout, the type the comparator bound for T reads; comparators must not return a narrowed/overflowing difference (int "
+             "differences accepted only for keys public guards keep non-negative); a refused insertion releases the new source and returns the "
+             "error; validation precedes registration; m_mod_src_len's type parameter must influence the result and internal sources are skipped; "
+             "registry removal only for (RM, stop); task deregistration always refuses; same-topic/same-flags subscription updates in place.",
+        tech="type/record-layout compatibility between call sites and function-pointer-bound comparators, implicit-cast inspection, path enumeration, def-use",
+        ref="DESIGN.md §4 C09, A.6"),
 }
 
 NOT_APPLICABLE = {
